@@ -69,6 +69,7 @@ type Verifier struct {
 	vacProbes, vacOK int
 	suppressObs int
 	forks       []fork
+	siteMap     map[*ssa.Function]map[ssa.Instruction][]*SiteAssert
 	noFork      int
 	lockSnap    map[string]*State
 	firstLockSnap *State
@@ -88,7 +89,7 @@ func NewVerifier(prog *ssa.Program, fset *token.FileSet, cs *ContractSet) *Verif
 	return &Verifier{prog: prog, fset: fset, contracts: cs, obls: map[string]*Obligation{},
 		analyses: map[*ssa.Function]*fnAnalysis{}, modsets: map[*ssa.Function]map[string]Sort{},
 		trusted: map[string]bool{}, byContract: map[string]bool{}, inlinedFns: map[string]bool{},
-		siteSeen: map[string]int{}, srcCache: map[string][]string{}, maxStates: 256, assumptions: map[string]bool{}, lockSnap: map[string]*State{}}
+		siteSeen: map[string]int{}, srcCache: map[string][]string{}, maxStates: 256, assumptions: map[string]bool{}, lockSnap: map[string]*State{}, siteMap: map[*ssa.Function]map[ssa.Instruction][]*SiteAssert{}}
 }
 
 var repoRoot = "/repo"
@@ -171,7 +172,7 @@ func (v *Verifier) addOb(st *State, kind string, pos token.Pos, goal *Term, clau
 		in = "/in:" + funcRef(st.frame.fn)
 	}
 	name := fmt.Sprintf("%s#%s@%q%s", fname, kind, site, in)
-	if kind == "post" || kind == "inv-entry" || kind == "inv-step" || kind == "dec" || kind == "pre" || kind == "lock" || kind == "monitor" || kind == "frame" || kind == "assert" {
+	if kind == "post" || kind == "inv-entry" || kind == "inv-step" || kind == "dec" || kind == "pre" || kind == "lock" || kind == "monitor" || kind == "frame" || kind == "assert" || kind == "step" {
 		name = fmt.Sprintf("%s#%s@%q%s", fname, kind, trunc(clause, 90), in)
 		if kind == "pre" || kind == "lock" || kind == "monitor" {
 			name = fmt.Sprintf("%s#%s@%q@%q%s", fname, kind, trunc(clause, 70), site, in)
@@ -426,6 +427,19 @@ func (v *Verifier) constValue(c *ssa.Const) *Value {
 
 // ---------- loops ----------
 
+func (v *Verifier) loopSteps(fn *ssa.Function, li *loopInfo) (steps []*Clause) {
+	fc := v.contracts.forFunc(fn)
+	if fc == nil {
+		return
+	}
+	for _, c := range fc.Clauses {
+		if c.IsLoop && c.Loop == li.ordinal && c.Kind == "step" {
+			steps = append(steps, c)
+		}
+	}
+	return
+}
+
 func (v *Verifier) loopClauses(fn *ssa.Function, li *loopInfo) (invs []*Clause, decs []*Clause, mods []*Clause) {
 	fc := v.contracts.forFunc(fn)
 	if fc == nil {
@@ -480,6 +494,13 @@ func (v *Verifier) cutLoop(fn *ssa.Function, an *fnAnalysis, li *loopInfo, s *St
 	for _, c := range invs {
 		s.assume(ev.boolExpr(c.Expr))
 	}
+	// snapshot of the iteration start for `loop N step` clauses (prev(e))
+	if len(v.loopSteps(fn, li)) > 0 {
+		if s.snaps == nil {
+			s.snaps = map[string]*State{}
+		}
+		s.snaps[fmt.Sprintf("loophead!%p!%d", fn, li.ordinal)] = s.clone()
+	}
 	// record measure at loop head
 	for i, c := range decs {
 		m := ev.intExpr(c.Expr)
@@ -504,6 +525,16 @@ func (v *Verifier) backEdge(fn *ssa.Function, an *fnAnalysis, li *loopInfo, s *S
 		m0 := m0v.term()
 		m := ev.intExpr(c.Expr)
 		v.addOb(s, "dec", pos, And(Le(Int(0), m0), Lt(m, m0)), fmt.Sprintf("loop %d decreases %s", li.ordinal, c.Text), c.Props)
+	}
+	for _, c := range v.loopSteps(fn, li) {
+		snap := s.snaps[fmt.Sprintf("loophead!%p!%d", fn, li.ordinal)]
+		if snap == nil {
+			continue
+		}
+		sev := v.newEval(s, fn, fc, evalLoop)
+		sev.loop = li
+		sev.prev = snap
+		v.addOb(s, "step", pos, sev.boolExpr(c.Expr), fmt.Sprintf("loop %d step %s", li.ordinal, c.Text), c.Props)
 	}
 	if len(decs) == 0 && v.wantTermination(fn) && !v.isStructuralLoop(li) {
 		v.addOb(s, "dec", pos, False, fmt.Sprintf("loop %d has no decreases clause", li.ordinal), nil)
@@ -575,6 +606,9 @@ func (v *Verifier) execFrom(fn *ssa.Function, an *fnAnalysis, b *ssa.BasicBlock,
 		ins := b.Instrs[idx]
 		if s.dead {
 			return
+		}
+		if sas := v.siteAssertsBefore(fn, ins); len(sas) > 0 {
+			v.runSiteAsserts(fn, s, fc, sas, ins.Pos(), b)
 		}
 		switch t := ins.(type) {
 		case *ssa.If:
@@ -1448,5 +1482,81 @@ func (v *Verifier) zeroGhost(s *State, ref *Term, t types.Type) {
 		} else if isStruct(ft) {
 			v.zeroGhost(s, Add(ref, Int(fieldOffset(u, i))), ft)
 		}
+	}
+}
+
+
+// site assertions: computed once per function: instruction -> assertions to check before it.
+// An `after "text"` assertion is attached to the instruction that follows the last instruction of the matching line
+// within its block (or to the block terminator).
+func (v *Verifier) siteAssertsBefore(fn *ssa.Function, ins ssa.Instruction) []*SiteAssert {
+	m, ok := v.siteMap[fn]
+	if !ok {
+		m = map[ssa.Instruction][]*SiteAssert{}
+		v.siteMap[fn] = m
+		if c := v.contracts.forFunc(fn); c != nil {
+			for _, sa := range c.SiteAsserts {
+				placed := false
+				for _, b := range fn.Blocks {
+					if placed {
+						break
+					}
+					for i, in := range b.Instrs {
+						if _, isDbg := in.(*ssa.DebugRef); isDbg || !in.Pos().IsValid() {
+							continue
+						}
+						_, txt := v.srcLine(in.Pos())
+						if !strings.Contains(txt, sa.Match) {
+							continue
+						}
+						if !sa.After {
+							m[in] = append(m[in], sa)
+							placed = true
+							break
+						}
+						// last instruction of this line in the block
+						line := v.fset.Position(in.Pos()).Line
+						j := i
+						for k := i + 1; k < len(b.Instrs); k++ {
+							if p := b.Instrs[k].Pos(); p.IsValid() {
+								if v.fset.Position(p).Line == line {
+									j = k
+								} else if _, isDbg := b.Instrs[k].(*ssa.DebugRef); !isDbg {
+									break
+								}
+							}
+						}
+						if j+1 < len(b.Instrs) {
+							m[b.Instrs[j+1]] = append(m[b.Instrs[j+1]], sa)
+						} else {
+							m[b.Instrs[len(b.Instrs)-1]] = append(m[b.Instrs[len(b.Instrs)-1]], sa)
+						}
+						placed = true
+						break
+					}
+				}
+				if !placed {
+					v.abort("CONTRACT-STALE: assert: no source line of %s contains %q", funcRef(fn), sa.Match)
+				}
+			}
+		}
+	}
+	return m[ins]
+}
+
+func (v *Verifier) runSiteAsserts(fn *ssa.Function, s *State, fc *frameCells, sas []*SiteAssert, pos token.Pos, blk *ssa.BasicBlock) {
+	// innermost loop containing this block (for rangeidx)
+	var inner *loopInfo
+	if an := v.analyses[fn]; an != nil {
+		for _, li := range an.loops {
+			if li.body[blk] && (inner == nil || len(li.body) < len(inner.body)) {
+				inner = li
+			}
+		}
+	}
+	for _, sa := range sas {
+		ev := v.newEval(s, fn, fc, evalLoop)
+		ev.loop = inner
+		v.addOb(s, "assert", pos, ev.boolExpr(sa.Expr), "assert "+sa.Text, sa.Props)
 	}
 }
